@@ -423,6 +423,90 @@ def depth_task(arg):
     return kind, d, None
 
 
+# ------------------------------------------------------------------ part: the library's own id generator
+REAL_SHAPES = {
+    "siblings": "{% component 'rid' / %}" * 6,
+    "loop": "{% for q in '12345' %}{% component 'rid' / %}{% endfor %}",
+    "nested": "{% component 'rid' %}{% component 'rid' %}{% component 'rid' %}{% component 'rid' / %}{% endcomponent %}{% endcomponent %}{% endcomponent %}",
+    "siblings_in_parent": "{% component 'rid' %}" + "{% component 'rid' / %}" * 4 + "{% endcomponent %}",
+}
+REAL_PERTURB = ("none", "random.seed(const) in get_context_data", "random.seed(name) in get_context_data", "random.seed(const) in on_render_before",
+                "random.setstate(saved) in get_context_data")
+
+
+def real_ids_task(arg):
+    """All other parts replace the id generator by a deterministic counter.  Here the REAL generator runs while user callbacks
+    do what user code legitimately does with process-global randomness (seeding `random` for a stable colour / shuffle): the ids
+    of one page must stay distinct, each element must carry the id its instance reported, over the real alphabet."""
+    import random
+    import re
+
+    from django.template import Context, Template
+
+    import django_components.util.misc as misc
+    from django_components import Component
+    from django_components.component_registry import registry
+    from django_components.util.nanoid import generate as real_generate
+
+    mode, perturb = arg
+    boot.set_components_setting(context_behavior=mode)
+    saved_state = random.getstate()
+
+    def gcd(self, **kw):
+        if perturb == "random.seed(const) in get_context_data":
+            random.seed(7)
+        elif perturb == "random.seed(name) in get_context_data":
+            random.seed(self.name)
+        elif perturb == "random.setstate(saved) in get_context_data":
+            random.setstate(saved_state)
+        return {"my_id": self.id}
+
+    def before(self, context, template):
+        if perturb == "random.seed(const) in on_render_before":
+            random.seed(7)
+
+    cls = type("C14RealId", (Component,), {"__module__": "verif_c14r", "template": "<div>[{{ my_id }}]{% slot 'x' default / %}</div>",
+                                          "get_context_data": gcd, "on_render_before": before})
+    if "rid" in registry.all():
+        registry.unregister("rid")
+    registry.register("rid", cls)
+    seam = misc.generate
+    misc.generate = real_generate
+    out = []
+    try:
+        for shape, src in REAL_SHAPES.items():
+            problem = None
+            try:
+                html = Template(src).render(Context({}))
+            except Exception as e:  # noqa
+                boot.clear_render_registries()
+                problem = f"render raised {type(e).__name__}: {str(e)[:200]}"
+                html = ""
+            if problem is None:
+                pairs = re.findall(r"<div((?: data-djc-id-\w+(?:=\"\")?)*)>\[(\w*)\]", html)
+                echoes = [e for _, e in pairs]
+                n_expected = src.count("component 'rid'") * (5 if shape == "loop" else 1)
+                if len(pairs) != n_expected:
+                    problem = f"{len(pairs)} component elements found, expected {n_expected}: {html[:300]!r}"
+                elif len(set(echoes)) != len(echoes):
+                    problem = f"Component.id values are not distinct: {echoes}"
+                elif any(not re.fullmatch(r"[0-9a-zA-Z]{6}", e) for e in echoes):
+                    problem = f"ids outside the documented alphabet / length: {echoes}"
+                else:
+                    for attrs, e in pairs:
+                        ids = re.findall(r"data-djc-id-(\w+)", attrs)
+                        if e not in ids:
+                            problem = f"the root element of the instance that reported id {e} carries {ids}"
+                            break
+            out.append((mode, perturb, shape, problem))
+    finally:
+        misc.generate = seam
+        random.setstate(saved_state)
+        boot.clear_render_registries()
+        registry.unregister("rid")
+    return out
+
+
 def run(ctx):
     ev = ctx.ev
     ev.rule = ("PROG: every program over text, for, <div> elements, slot x, component tags with fills (2 generated components, each echoing "
@@ -452,10 +536,29 @@ def run(ctx):
             ctx.fnd.report(f"depth:{kind}:{problem.split(' ')[0]}", f"{kind}({d}): {problem}", {"part": "depth", "kind": kind, "d": d})
     ev.add_part("depth_families", states=len(tasks), transitions=len(tasks), validated=len(tasks), nontrivial=len(tasks),
                 bound={"depths": depths}, samples=[{"family": "chain", "d": depths[-1]}])
+    rtasks = [(mode, p) for mode in ("django", "isolated") for p in REAL_PERTURB]
+    n = 0
+    seen = set()
+    for rows in par.run_tasks(real_ids_task, rtasks):
+        for mode, perturb, shape, problem in rows:
+            n += 1
+            seen.add((perturb, shape, problem is None))
+            if problem:
+                ctx.fnd.report(f"real-ids:{mode}:{perturb}:{shape}", f"[{mode}] real id generator, {perturb}, page shape {shape}: {problem}",
+                               {"part": "real_ids", "mode": mode, "perturb": perturb})
+    ev.add_part("real_id_generator", states=n, transitions=n, validated=n, nontrivial=n - 2 * len(REAL_SHAPES), observed_distinct=len(seen),
+                bound={"perturbations_of_global_randomness_in_user_callbacks": list(REAL_PERTURB), "page_shapes": list(REAL_SHAPES), "modes": 2},
+                samples=[{"perturb": REAL_PERTURB[1], "shape": "siblings"}])
     ev.assumptions = ["html.parser is the trusted HTML reader", "element tags are <div>; attribute insertion itself is done by the external djc_core_html_parser"]
 
 
 def replay(ctx, case):
+    if case.get("part") == "real_ids":
+        ok = True
+        for mode, perturb, shape, problem in real_ids_task((case["mode"], case["perturb"])):
+            print(shape, "->", problem or "ok")
+            ok = ok and problem is None
+        return ok
     if case.get("part") == "depth":
         kind, d, problem = depth_task((case["kind"], case["d"]))
         print(problem)
